@@ -948,6 +948,22 @@ fn kf_xlsx_shared_formula_with_non_ascii_text() {
     assert_eq!(f.get_value((2, 1)).map(|s| s.as_str()), Some("A3&\"\u{e9}t\u{e9} \u{2211}\""));
 }
 
+// shared formulas are looked up by their `si`, whatever the order and the magnitude of the indices
+
+#[test]
+fn kf_xlsx_shared_formula_masters_out_of_si_order() {
+    // the master of group 1 comes before the master of group 0; a third group uses a large index
+    let sh = sheet(
+        "<row r=\"1\"><c r=\"A1\"><f t=\"shared\" ref=\"A1:A2\" si=\"1\">C1+1</f><v>1</v></c><c r=\"B1\"><f t=\"shared\" ref=\"B1:B2\" si=\"0\">D1*2</f><v>1</v></c><c r=\"E1\"><f t=\"shared\" ref=\"E1:E2\" si=\"70000\">F1-3</f><v>1</v></c></row>\
+         <row r=\"2\"><c r=\"A2\"><f t=\"shared\" si=\"1\"/><v>1</v></c><c r=\"B2\"><f t=\"shared\" si=\"0\"/><v>1</v></c><c r=\"E2\"><f t=\"shared\" si=\"70000\"/><v>1</v></c></row>",
+    );
+    let mut wb: Xlsx<_> = Xlsx::new(Cursor::new(minimal_xlsx(&sh, None, None))).unwrap();
+    let f = wb.worksheet_formula("Sheet1").unwrap();
+    assert_eq!(f.get_value((1, 0)).map(|s| s.as_str()), Some("C2+1"), "member of group 1");
+    assert_eq!(f.get_value((1, 1)).map(|s| s.as_str()), Some("D2*2"), "member of group 0");
+    assert_eq!(f.get_value((1, 4)).map(|s| s.as_str()), Some("F2-3"), "member of group 70000");
+}
+
 // C10 / R-FMT-SCAN
 
 #[test]
